@@ -43,12 +43,23 @@ type exGen struct {
 	env      *Env
 	rightTer bool // produced a conditional in else-position without parentheses
 	newlines bool
+	instr    bool // insert recording / failing calls at leaves
 }
 
 // Env: identifiers available to expressions and their Go values.
 type Env struct {
-	Names []string
-	Vals  map[string]any
+	Names    []string
+	Vals     map[string]any
+	ErrClass string   // class of the first error met by RefEval ("" = generic)
+	Log      []string // calls of the recording functions made by RefEval
+	K        int64    // counter for recording-call ids
+}
+
+func (e *Env) fail(class string) (any, bool) {
+	if e.ErrClass == "" {
+		e.ErrClass = class
+	}
+	return nil, false
 }
 
 func (g *exGen) intLit(v int64) *Ex {
@@ -243,6 +254,31 @@ func (g *exGen) Gen(kind string, d int) *Ex {
 		kind = g.r.Pick([]string{"i", "f", "s", "b"})
 	}
 	leaf := d <= 0 || g.r.Chance(25)
+	if g.instr && leaf && g.r.Chance(35) {
+		g.env.K++
+		k := &Ex{K: "lit", Op: "int", Text: strconv.FormatInt(g.env.K, 10), Val: g.env.K}
+		call := func(name string, args ...*Ex) *Ex { return &Ex{K: "call", A: &Ex{K: "name", Text: name}, Args: args} }
+		if g.r.Chance(12) {
+			switch g.r.Intn(4) {
+			case 0:
+				return call("fail")
+			case 1:
+				return call("boom")
+			case 2:
+				return &Ex{K: "name", Text: "zzz"}
+			default:
+				return call("failIf", &Ex{K: "name", Text: "true"})
+			}
+		}
+		switch kind {
+		case "i":
+			return call("rec", k)
+		case "b":
+			return call("recb", k, &Ex{K: "name", Text: g.r.Pick([]string{"true", "false"})})
+		case "s":
+			return call("recs", k, g.strLit(""))
+		}
+	}
 	switch kind {
 	case "i":
 		if leaf {
@@ -405,6 +441,9 @@ func (g *exGen) Print(e *Ex) string {
 		if s1 == "" && len(a) > 0 && strings.ContainsRune("+-&^*<=|!/>?.", rune(a[len(a)-1])) {
 			s1 = " "
 		}
+		if e.Op == "/" && strings.HasPrefix(s2, "/") {
+			s2 = " " + s2 // "//" would start a line comment
+		}
 		return a + s1 + e.Op + s2 + b
 	case "cond":
 		c := wrap(e.A, e.A.level() <= 1)
@@ -526,22 +565,53 @@ func RefEval(e *Ex, env *Env) (any, bool) {
 		}
 		v, ok := env.Vals[e.Text]
 		if !ok {
-			return nil, false
-		}
-		if i, ok := toI(v); ok {
-			return i, true
-		}
-		if f, ok := toF(v); ok {
-			return f, true
+			return env.fail("nosuch")
 		}
 		return v, true
 	case "paren":
 		return RefEval(e.A, env)
+	case "call":
+		var args []any
+		for _, a := range e.Args {
+			v, ok := RefEval(a, env)
+			if !ok {
+				return nil, false
+			}
+			args = append(args, v)
+		}
+		switch e.A.Text {
+		case "one":
+			return int64(1), true
+		case "ident":
+			return args[0], true
+		case "fail":
+			return env.fail("user1")
+		case "boom":
+			return env.fail("err")
+		case "add":
+			return args[0].(int64) + args[1].(int64), true
+		case "rec":
+			env.Log = append(env.Log, fmt.Sprintf("7:%d", args[0].(int64)))
+			return args[0], true
+		case "recb":
+			env.Log = append(env.Log, fmt.Sprintf("8:%d", args[0].(int64)))
+			return args[1], true
+		case "recs":
+			env.Log = append(env.Log, fmt.Sprintf("9:%d", args[0].(int64)))
+			return args[1], true
+		case "failIf":
+			if args[0].(bool) {
+				return env.fail("user2")
+			}
+			return "ok", true
+		}
+		return env.fail("err")
 	case "un":
 		a, ok := RefEval(e.A, env)
 		if !ok {
 			return nil, false
 		}
+		a = norm(a)
 		switch e.Op {
 		case "-":
 			if i, ok := a.(int64); ok {
@@ -607,12 +677,23 @@ func RefEval(e *Ex, env *Env) (any, bool) {
 		if !ok {
 			return nil, false
 		}
-		return refBin(e.Op, a, b)
+		return refBin(e.Op, norm(a), norm(b))
 	}
 	return nil, false
 }
 
 func fmtV(v any) string { return fmt.Sprintf("%v", v) }
+
+// norm: every integer kind as int64, every float kind as float64 (what the operators see)
+func norm(v any) any {
+	if i, ok := toI(v); ok {
+		return i
+	}
+	if f, ok := toF(v); ok {
+		return f
+	}
+	return v
+}
 
 func refBin(op string, a, b any) (any, bool) {
 	ai, aisI := a.(int64)
